@@ -270,6 +270,7 @@ void ds_sub_hazard(void) {
     }
     vp_sig(vp_mix(((uint64_t)n_writers << 16) | ((uint64_t)late_joiners << 8) | (uint64_t)K, (uint64_t)nrec));
     vp_progress();
+    vp_case();
     vp_add(c_rounds, 1);
     if (vp_violation_count()) break;
   }
